@@ -20,7 +20,7 @@ claim('C01', 'exploration',
       'exhaustive enumeration of message shapes, of every single-site corruption of them and of limit boundaries, each judged by an independent reference decoder',
       'For every generated input (valid shapes of every type tree to a depth bound x header shapes, every single-site corruption of a core subset, limit boundaries, '
       'all short unstructured tails) dbus_message_demarshal, dbus_message_demarshal_bytes_needed and a DBusMessageLoader must accept exactly when the independent '
-      'decoder accepts, the values read back through the accessor/iterator API must equal the reference decoding, and the process must stay ASan/UBSan/assert clean and terminate.',
+      'decoder accepts, the values read back through the accessor/iterator API (element-wise and by block reads from the first and from later positions) must equal the reference decoding, and the process must stay ASan/UBSan/assert clean and terminate. The maximum message length is exercised with a loader whose limit is set a few bytes around each message\'s total length.',
       'Trusts pyv/refdbus.py as the reading of the specification (self-checked in setup). Inputs outside the enumerated shapes/corruption classes are not covered. '
       'Inputs where the specification admits two readings are counted as unspecified and not judged.',
       'DESIGN.md section 4 C01')
